@@ -5,7 +5,7 @@
 cd "$(dirname "$0")/.."
 export VERIF_REPO=${VERIF_REPO:-${VP_RUN_REPO:-/repo}}
 ./check --setup | tail -1
-out=${1:-seeded/DRILL.md}
+out=${1:-seeded/DRILL-seed${VERIF_SEED:-1}.md}
 echo "| seeded change | property | verdict | first report |" > $out
 echo "|---|---|---|---|" >> $out
 for d in seeded/C*/; do
